@@ -388,17 +388,29 @@ class Crate:
 
 
 class Facts:
-    def __init__(self, directory, override=None):
+    def __init__(self, directory, override=None, raw=False):
         self.dir = directory
         self.crates = {}
+        self.renames = {}
         for dd in ([directory] + ([override] if override else [])):
+            texts = {}
             for f in sorted(os.listdir(dd)):
                 if f.endswith(".json"):
                     with open(os.path.join(dd, f)) as fh:
-                        j = json.load(fh)
-                    c = Crate(j, os.path.join(dd, f))
-                    key = c.name if not c.meta["target_kind"].startswith("test") else c.name + ":" + c.meta["target_kind"]
-                    self.crates[key] = c
+                        texts[f] = fh.read()
+            if raw:
+                parsed = {f: json.loads(t) for f, t in texts.items()}
+            else:
+                # names of the reference tree for renamed functions / types / variants / fields (rules/renames.py)
+                from . import renames
+                parsed, rn = renames.normalise(texts)
+                for k, v in rn.items():
+                    if v:
+                        self.renames.setdefault(k, {}).update(v)
+            for f, j in parsed.items():
+                c = Crate(j, os.path.join(dd, f))
+                key = c.name if not c.meta["target_kind"].startswith("test") else c.name + ":" + c.meta["target_kind"]
+                self.crates[key] = c
         self.fns = {}
         self.fn_list = []
         for c in self.crates.values():
@@ -464,8 +476,10 @@ class Facts:
 _FACTS_CACHE = {}
 
 
-def load(config="default", repo=None):
+def load(config="default", repo=None, raw=False):
     d = ensure_facts(config, repo)
+    if raw:
+        return Facts(d, raw=True)
     if d not in _FACTS_CACHE:
         if config == "nocrossterm":
             # only rsjsonnet-front is built in this configuration: the other crates come from the default one
